@@ -139,6 +139,7 @@ type Run struct {
 	Inconclusive string
 	Post         []func() // run after the bubble has ended (real clock, no simulated goroutines)
 	endSim       string
+	lastOp       string // what the workload was about to call (quoted when the call never returns)
 }
 
 func (r *Run) Count(name string, n int64) {
@@ -251,6 +252,7 @@ func ExecBubble(t *testing.T, prop string, seed uint64, tier string, keep map[in
 	runtime.GC()
 	oldGC := debug.SetGCPercent(-1)
 	defer debug.SetGCPercent(oldGC)
+	bodyDone := false
 	func() {
 		defer func() {
 			if p := recover(); p != nil {
@@ -258,6 +260,11 @@ func ExecBubble(t *testing.T, prop string, seed uint64, tier string, keep map[in
 				if strings.Contains(s, "deadlock: all goroutines in bubble are blocked") || strings.Contains(s, "deadlock: main bubble goroutine has exited") {
 					// leftover goroutines of the system under test at the end of the bubble
 					r.Count("bubble_end_blocked", 1)
+					if !bodyDone {
+						// ... or the workload itself never finished: a call into the system under
+						// test blocks for ever with no timer pending
+						r.Fail("stuck", "the run deadlocked before the workload finished: a call into the system under test never returned and no timer was pending (%s)", r.lastOp)
+					}
 					return
 				}
 				buf := make([]byte, 16384)
@@ -279,6 +286,7 @@ func ExecBubble(t *testing.T, prop string, seed uint64, tier string, keep map[in
 					}
 				}()
 				body(r)
+				bodyDone = true
 			}()
 			res.SimNanos = int64(time.Since(r.start))
 			r.endSim = time.Since(r.start).String()
